@@ -147,6 +147,20 @@ func (m *monitor) checkState(v *dlgrw.View, h int64) *outcome {
 			return &outcome{"rewards-accrued", "negative-balance", fmt.Sprintf("h=%d: delegRwz_balance of %s is negative: %s", h, m.name(a), b)}
 		}
 	}
+	// what is pending at a height is paid in that height's block: after the commit of block h no non-zero entry of a
+	// height <= h may be left (it would never be visited again)
+	if h >= 1 {
+		for ha, a := range v.Pending() {
+			if ha.H <= h && a.Sign() != 0 {
+				return &outcome{"maturity-credit", "pending-undelegation-left-behind", fmt.Sprintf("h=%d: the pending undelegation of %s recorded for height %d (%s) is still there after that height's block", h, m.name(ha.Addr), ha.H, a)}
+			}
+		}
+		for ha, a := range rwPend {
+			if ha.H <= h && a.Sign() != 0 {
+				return &outcome{"maturity-credit", "pending-reward-withdrawal-left-behind", fmt.Sprintf("h=%d: the pending reward withdrawal of %s recorded for height %d (%s) is still there after that height's block", h, m.name(ha.Addr), ha.H, a)}
+			}
+		}
+	}
 	claims := new(big.Int).Add(dlgrw.Sum(rwBal), dlgrw.SumHA(rwPend))
 	claims.Add(claims, m.paid)
 	claims.Add(claims, m.rein)
